@@ -295,6 +295,8 @@ def run_unit(ctx, name, **kw):
         for n in (29, 65537, gen.named("SECP112r1").n, gen.named("NIST256p").n, gen.named("NIST521p").n):
             for r, s in ((1, 1), (n - 1, n - 1), (0x80, 0x7F), (n // 3, n // 5), (0, 0)):
                 seeds.append((n, R.enc_sig(r % n, s % n)))
+        big = (1 << 1100) - 1
+        seeds.append((big, R.enc_sig(big - 1, big // 3)))          # SEQUENCE body of 280 bytes: length 82 01 18
         seen = set()
         for n, seed in seeds:
             check_der_dec(ctx, n, seed)
